@@ -255,11 +255,53 @@ def np_dense(tn, out, gauges=None):
                 ops.append(((ix,), np.asarray(s)))
     labels = sorted({i for inds, _ in ops for i in inds} | set(out))
     if len(labels) > len(LET):
-        raise RuntimeError("too many labels for einsum")
+        # more labels than einsum has letters (many lazy gates): contract pairwise, relabelling locally
+        val = _pairwise(ops, list(out))
+        return np.asarray(val).reshape(-1) * 10.0 ** float(getattr(tn, "exponent", 0.0))
     sym = {x: LET[k] for k, x in enumerate(labels)}
     eq = ",".join("".join(sym[i] for i in inds) for inds, _ in ops) + "->" + "".join(sym[i] for i in out)
     val = np.einsum(eq, *[a.astype(complex) for _, a in ops], optimize="greedy")
     return np.asarray(val).reshape(-1) * 10.0 ** float(getattr(tn, "exponent", 0.0))
+
+
+def _pairwise(ops, out):
+    """plain numpy contraction of [(labels, array)] to the labels `out`, two operands at a time (a label that is
+    still carried by a third operand or is an output label is kept)"""
+    ops = [(list(inds), np.asarray(a).astype(complex)) for inds, a in ops]
+    missing = [x for x in out if not any(x in inds for inds, _ in ops)]
+    if missing:
+        raise ValueError("output labels %r are not in the network" % (missing,))
+    while len(ops) > 1:
+        best = None
+        for i in range(len(ops)):
+            for j in range(i + 1, len(ops)):
+                shared = set(ops[i][0]) & set(ops[j][0])
+                if not shared:
+                    continue
+                others = set(out)
+                for k, (inds, _) in enumerate(ops):
+                    if k not in (i, j):
+                        others |= set(inds)
+                keep = [x for x in dict.fromkeys(ops[i][0] + ops[j][0]) if x in others]
+                size = 1
+                dims = dict(zip(ops[i][0], ops[i][1].shape))
+                dims.update(zip(ops[j][0], ops[j][1].shape))
+                for x in keep:
+                    size *= dims[x]
+                if best is None or size < best[0]:
+                    best = (size, i, j, keep)
+        if best is None:            # disconnected pieces: outer product of the first two
+            i, j = 0, 1
+            keep = ops[0][0] + ops[1][0]
+        else:
+            _, i, j, keep = best
+        loc = {x: LET[k] for k, x in enumerate(dict.fromkeys(ops[i][0] + ops[j][0]))}
+        eq = "".join(loc[x] for x in ops[i][0]) + "," + "".join(loc[x] for x in ops[j][0]) + "->" + "".join(loc[x] for x in keep)
+        new = (keep, np.einsum(eq, ops[i][1], ops[j][1]))
+        ops = [o for k, o in enumerate(ops) if k not in (i, j)] + [new]
+    inds, arr = ops[0]
+    loc = {x: LET[k] for k, x in enumerate(inds)}
+    return np.einsum("".join(loc[x] for x in inds) + "->" + "".join(loc[x] for x in out), arr)
 
 
 # --------------------------------------------------------------------------- numpy reference (relational checks only)
